@@ -82,6 +82,41 @@ def _usb(u):
     return 'None' if u is None else '(Some %s)' % _zl(u)
 
 
+def coq_parts_lists(case):
+    negs = []
+    for o in case['negs']:
+        if o in ('O', 'U', 'A'):
+            negs.append({'O': 'NOk', 'U': 'NUpLost', 'A': 'NAckLost'}[o])
+        else:
+            negs.append('NOther %s %s' % (_b(o[1]), _zl(o[2])))
+    evs = []
+    for e in case['evs']:
+        if e[0] == 'S':
+            evs.append('Submit %s %s' % (coqrun.z(e[1]), _zl(e[2])))
+        elif e[0] == 'Q':
+            evs.append('PeerQueue %s %s' % (coqrun.z(e[1]), _zl(e[2])))
+        elif e[0] == 'R':
+            evs.append('Recv')
+        elif e[0] == 'T':
+            evs.append('Tx %s %s' % (_OUT[e[1]], _zl(e[2])))
+        elif e[0] == 'N':
+            evs.append('TxUsb false')
+        elif e[0] == 'E':
+            evs.append('TxUsb true')
+        elif e[0] == 'ST':
+            evs.append('SubmitTimeout %s %s' % (coqrun.z(e[1]), _zl(e[2])))
+        elif e[0] == 'RW':
+            evs.append('RecvWait %s' % coqrun.z(e[1]))
+        else:
+            raise ValueError(e)
+    return negs, evs
+
+
+def coq_parts(case):
+    negs, evs = coq_parts_lists(case)
+    return '; '.join(negs), '; '.join(evs)
+
+
 def coq_term(case):
     if case.get('host_only'):
         us = []
@@ -119,32 +154,14 @@ def coq_term(case):
     p0 = case['p0']
     peer = '(mkPeer %s %s %s [] %s %s)' % (_b(p0['on']), _b(p0['up']), _b(p0['down']), _fl(p0['txq']),
                                           'None' if p0['last'] is None else '(Some %s)' % _zl(p0['last']))
-    negs = []
-    for o in case['negs']:
-        if o in ('O', 'U', 'A'):
-            negs.append({'O': 'NOk', 'U': 'NUpLost', 'A': 'NAckLost'}[o])
-        else:
-            negs.append('NOther %s %s' % (_b(o[1]), _zl(o[2])))
-    evs = []
-    for e in case['evs']:
-        if e[0] == 'S':
-            evs.append('Submit %s %s' % (coqrun.z(e[1]), _zl(e[2])))
-        elif e[0] == 'Q':
-            evs.append('PeerQueue %s %s' % (coqrun.z(e[1]), _zl(e[2])))
-        elif e[0] == 'R':
-            evs.append('Recv')
-        elif e[0] == 'T':
-            evs.append('Tx %s %s' % (_OUT[e[1]], _zl(e[2])))
-        elif e[0] == 'N':
-            evs.append('TxUsb false')
-        elif e[0] == 'E':
-            evs.append('TxUsb true')
-        elif e[0] == 'ST':
-            evs.append('SubmitTimeout %s %s' % (coqrun.z(e[1]), _zl(e[2])))
-        elif e[0] == 'RW':
-            evs.append('RecvWait %s' % coqrun.z(e[1]))
-        else:
-            raise ValueError(e)
+    negs, evs = coq_parts_lists(case)
+    if case.get('more'):
+        more = []
+        for seg in case['more']:
+            sub = coq_parts(seg)
+            more.append('(%s, [%s], [%s])' % ({'restart': 'Restart', 'reconnect': 'Reconnect'}[seg['how']], sub[0], sub[1]))
+        return 'history_obs %s %s [%s] [%s] [%s] %s' % (coqrun.z(case['N']), peer, '; '.join(negs), '; '.join(evs),
+                                                       '; '.join(more), _b(case.get('close')))
     return 'session_obs %s %s [%s] [%s] %s' % (coqrun.z(case['N']), peer, '; '.join(negs), '; '.join(evs),
                                                _b(case.get('close')))
 
@@ -381,6 +398,54 @@ def threaded_case(rng, ntx, napp):
             'threaded': {'n': napp, 'seed': rng.randrange(1 << 30)}, 'family': 'threaded'}
 
 
+NEG_KINDS = {
+    'ok': ['O'],
+    'late': ['U', 'A', 'U', 'O'],
+    'lost': [],                                   # all 10 requests unanswered
+    'acklost': ['A'] * 10,                        # peer switched, host never saw the echo
+    'other': [['X', 1, [0xf3, 1, 0x2c]]] * 10,    # a peer that answers with something else (other firmware, bootloader)
+}
+
+
+def _small_events(rng, n, api=False):
+    evs = []
+    for i in range(n):
+        r = rng.random()
+        if r < 0.3:
+            evs.append(['S', _app_hdr(rng), [rng.randrange(256) for _ in range(rng.randrange(0, 4))]])
+        elif r < 0.45:
+            evs.append(['Q', _fw_hdr(rng), [rng.randrange(256) for _ in range(rng.randrange(0, 4))]])
+        elif r < 0.55:
+            evs.append(['R'])
+        else:
+            evs.append(['T', rng.choice('OOOUA'), rng.choice([[], [1, 0x22]])])
+    return evs
+
+
+def multi_cases(ctx):
+    """several sessions on ONE RadioDriver object: every pair of start-up kinds x both ways of reopening, then
+    random longer histories"""
+    rng = ctx.rng
+    out = []
+    for k1 in NEG_KINDS:
+        for how in ('restart', 'reconnect'):
+            for k2 in NEG_KINDS:
+                out.append({'N': 3, 'p0': dict(P0_STD), 'negs': list(NEG_KINDS[k1]), 'evs': _small_events(rng, 8),
+                            'more': [{'how': how, 'negs': list(NEG_KINDS[k2]), 'evs': _small_events(rng, 8)}],
+                            'family': 'multi'})
+    for _ in range(ctx.scale(40, 600)):
+        kinds = list(NEG_KINDS)
+        c = {'N': rng.choice([2, 3, 100]), 'p0': dict(P0_STD, on=rng.randrange(2)),
+             'negs': list(NEG_KINDS[rng.choice(kinds)]), 'evs': _small_events(rng, rng.randrange(0, 25)),
+             'more': [{'how': rng.choice(['restart', 'reconnect']), 'negs': list(NEG_KINDS[rng.choice(kinds)]),
+                       'evs': _small_events(rng, rng.randrange(0, 25))} for _ in range(rng.randrange(1, 4))],
+             'family': 'multi'}
+        if rng.random() < 0.3:
+            c['close'] = 1
+        out.append(c)
+    return out
+
+
 def corpus_cases():
     import glob
     import json
@@ -399,6 +464,7 @@ def all_cases(ctx):
     cs += enum_cases(ctx.scale(5, 9), ctx.scale(3, 6))
     cs += [random_case(ctx.rng, ctx.scale(100, 400)) for _ in range(ctx.scale(110, 2500))]
     cs += [host_case(ctx.rng, ctx.scale(40, 120)) for _ in range(ctx.scale(110, 3000))]
+    cs += multi_cases(ctx)
     return cs
 
 
@@ -425,7 +491,9 @@ def results(ctx):
 def explicit(case, sim):
     """the case with the drain expanded (what the model is run on)"""
     c = dict(case)
-    c['evs'] = list(sim.executed)
+    c['evs'] = list(sim.sessions[0]['executed'])
+    if case.get('more'):
+        c['more'] = [dict(seg, evs=list(ss['executed'])) for seg, ss in zip(case['more'], sim.sessions[1:])]
     return c
 
 
@@ -442,7 +510,7 @@ def tie(ctx):
     res = results(ctx)
     dis = []
     terms, exp, idx = [], [], []
-    dist = {'enum': 0, 'random': 0, 'host': 0, 'corpus': 0, 'transmissions': 0, 'lost': 0, 'not_confirmed': 0,
+    dist = {'enum': 0, 'random': 0, 'host': 0, 'corpus': 0, 'multi': 0, 'threaded': 0, 'transmissions': 0, 'lost': 0, 'not_confirmed': 0,
             'link_errors': 0, 'max_events': 0}
     seen = set()
     nontriv = 0
@@ -559,28 +627,33 @@ def judge(case, sim):
     if getattr(sim, 'hung', False):
         fail('radio_loop_hung', 'session ends', 'threads still alive after the timeout', 'real-thread session did not finish')
         return fails
-    # ---- safelink only if confirmed; needs_resending
-    answers = [r[2:] if r[0] != -1 else None for r in sim.neg_resps]
-    conf_at = next((i for i, a in enumerate(answers[:10]) if a == [0xff, 0x05, 0x01]), None)
-    confirmed = conf_at is not None
-    # the same, read off the dongle's raw answers (status byte != 0, payload ff 05 01): what the peer really confirmed
-    raw_at = next((i for i, u in enumerate(sim.neg_usb[:10]) if u and u[0] != 0 and u[1:] == [0xff, 0x05, 0x01]), None)
-    if (raw_at is not None) != confirmed:
-        fail('confirmation_misread', raw_at is not None, confirmed,
-             'the driver must see the echo ff 05 01 exactly when the dongle delivered it')
-    if fin['safe'] != confirmed:
-        fail('safelink_mode_without_confirmation' if fin['safe'] else 'safelink_not_used_after_confirmation',
-             confirmed, fin['safe'], 'safelink must be used iff an attempt was answered by exactly ff 05 01')
-    if fin['n_neg'] != (conf_at + 1 if confirmed else 10) or any(f != [0xff, 0x05, 0x01] for f in sim.neg_frames):
-        fail('negotiation_attempts_wrong', conf_at + 1 if confirmed else 10, fin['n_neg'],
-             'up to 10 attempts of ff 05 01, stopping at the confirmation')
-    if fin['needs_resending'] != (not confirmed):
-        fail('needs_resending_wrong', not confirmed, fin['needs_resending'], 'needs_resending must be "no safelink"')
-    if not confirmed and not case.get('host_only'):
-        allowed = [[0xff]] + sim.accepted
-        bad = [t['frame'] for t in sim.tx if t['frame'] not in allowed]
-        if bad:
-            fail('frames_altered_without_safelink', 'packets as submitted', bad[:3], 'without safelink the header bits are not to be touched')
+    # ---- safelink only if confirmed DURING THAT START-UP; needs_resending; per session of the driver object
+    confirmed = True
+    for k, ss in enumerate(sim.sessions):
+        tag = '' if k == 0 else ' (session %d, after %s)' % (k + 1, case['more'][k - 1]['how'])
+        answers = [r[2:] if r[0] != -1 else None for r in ss['neg_resps']]
+        conf_at = next((i for i, a in enumerate(answers[:10]) if a == [0xff, 0x05, 0x01]), None)
+        conf = conf_at is not None
+        confirmed = confirmed and conf
+        # the same, read off the dongle's raw answers (status byte != 0, payload ff 05 01): what the peer really confirmed
+        raw_at = next((i for i, u in enumerate(ss['neg_usb'][:10]) if u and u[0] != 0 and u[1:] == [0xff, 0x05, 0x01]), None)
+        if (raw_at is not None) != conf:
+            fail('confirmation_misread', raw_at is not None, conf,
+                 'the driver must see the echo ff 05 01 exactly when the dongle delivered it' + tag)
+        if ss['safe'] != conf:
+            fail('safelink_mode_without_confirmation' if ss['safe'] else 'safelink_not_used_after_confirmation',
+                 conf, ss['safe'], 'safelink must be used iff an attempt of this start-up was answered by exactly ff 05 01' + tag)
+        if ss['n_neg'] != (conf_at + 1 if conf else 10) or any(f != [0xff, 0x05, 0x01] for f in ss['neg_frames']):
+            fail('negotiation_attempts_wrong', conf_at + 1 if conf else 10, ss['n_neg'],
+                 'up to 10 attempts of ff 05 01, stopping at the confirmation' + tag)
+        if ss['needs'] != (not conf):
+            fail('needs_resending_wrong', not conf, ss['needs'], 'needs_resending must be "no safelink in this session"' + tag)
+        if not conf and not case.get('host_only'):
+            allowed = [[0xff]] + sim.accepted
+            bad = [t['frame'] for t in sim.tx[ss['tx_from']:ss['tx_to']] if t['frame'] not in allowed]
+            if bad:
+                fail('frames_altered_without_safelink', 'packets as submitted', bad[:3],
+                     'without a confirmed safelink the header bits are not to be touched' + tag)
     # ---- link error exactly at the N-th consecutive unacknowledged transmission.  An iteration in which the
     #      dongle returned None is not a transmission (neither counted nor resetting); sessions in which
     #      radio.send_packet raised are outside the property (only: every exception must be reported).
@@ -591,7 +664,10 @@ def judge(case, sim):
     if n_exc == 0:
         N = case['N']
         run, exp_idx = 0, []
+        starts = set(ss['tx_from'] + 1 for ss in sim.sessions)
         for i, t in enumerate(sim.tx, 1):
+            if i in starts:
+                run = 0                      # a new thread starts with a full retry budget
             if t.get('ack') is None:
                 continue
             if t['ack']:
@@ -619,7 +695,7 @@ def judge(case, sim):
         if not (cl['radio_closed'] == 1 and cl['radio_ref'] and cl['callbacks_cleared'] and cl['out_queue_empty']):
             fail('close_incomplete', 'dongle closed once, callbacks cleared, out_queue emptied', cl, 'RadioDriver.close()')
     # ---- exactly once, in order, both directions
-    if confirmed and _preconditions(case):
+    if confirmed and _preconditions(case) and not case.get('more'):
         drained = bool(case['evs']) and case['evs'][-1][0] == 'D'
         acc = [[f[0] & 0xf3] + f[1:] for f in sim.accepted]
         rx = [f for f in sim.peer.rx if _nn(f)]
